@@ -159,42 +159,42 @@ theorem ptok_read_forget {rest buf : Bytes} (h : rest <:+ buf) :
   simp only [Exec.bind_eq, Exec.pure_eq, len_repeat]
   rw [Exec.forget_run]
   simp only [Exec.forget_bind, Exec.forget_val]
-  rw [step_reader id (readU64 rest) _ (by rw [(read_uN_eq h).1, rdRes_forget]) id _ (fun e => ⟨e.2, rfl⟩)]
+  rw [step_reader id (readU64 rest) _ (by rw [(read_uN_eq h).1, rdRes_forget]) (fun x => x) _ (fun e => ⟨e.2, rfl⟩)]
   cases h1m : readU64 rest with
   | none => simp [rdBind, Netcode.PrivateConnectToken.read, Exec.run_err, Exec.run_val, mapRes, bind, Res.forget, h1m]
   | some x1 =>
     obtain ⟨cid, r1⟩ := x1
     have hs1 : r1 <:+ buf := readU_suffix_buf h1m h
     simp only [rdBind, id]
-    rw [step_reader id (readI32 r1) _ (by rw [read_i32_eq hs1, rdRes_forget]) id _ (fun e => ⟨e.2, rfl⟩)]
+    rw [step_reader id (readI32 r1) _ (by rw [read_i32_eq hs1, rdRes_forget]) (fun x => x) _ (fun e => ⟨e.2, rfl⟩)]
     cases h2m : readI32 r1 with
     | none => simp [rdBind, Netcode.PrivateConnectToken.read, Exec.run_err, Exec.run_val, mapRes, bind, Res.forget, h1m, h2m]
     | some x2 =>
       obtain ⟨to, r2⟩ := x2
       have hs2 : r2 <:+ buf := readI32_suffix_buf h2m hs1
       simp only [rdBind, id]
-      rw [step_reader reprAddrs (readServerAddresses r2) _ (read_server_addresses_forget hs2) id _ (fun e => ⟨e.2, rfl⟩)]
+      rw [step_reader reprAddrs (readServerAddresses r2) _ (read_server_addresses_forget hs2) (fun x => x) _ (fun e => ⟨e.2, rfl⟩)]
       cases h3m : readServerAddresses r2 with
       | none => simp [rdBind, Netcode.PrivateConnectToken.read, Exec.run_err, Exec.run_val, mapRes, bind, Res.forget, h1m, h2m, h3m]
       | some x3 =>
         obtain ⟨sa, r3⟩ := x3
         have hs3 : r3 <:+ buf := (readServerAddresses_suffix h3m).trans hs2
         simp only [rdBind, id]
-        rw [step_reader toNats (readN 32 r3) _ (read_exact_forget hs3 32) id _ (fun e => ⟨e.2, rfl⟩)]
+        rw [step_reader toNats (readN 32 r3) _ (read_exact_forget hs3 32) (fun x => x) _ (fun e => ⟨e.2, rfl⟩)]
         cases h4m : readN 32 r3 with
         | none => simp [rdBind, Netcode.PrivateConnectToken.read, Exec.run_err, Exec.run_val, mapRes, bind, Res.forget, h1m, h2m, h3m, h4m]
         | some x4 =>
           obtain ⟨k1, r4⟩ := x4
           have hs4 : r4 <:+ buf := readN_suffix' h4m hs3
           simp only [rdBind, id]
-          rw [step_reader toNats (readN 32 r4) _ (read_exact_forget hs4 32) id _ (fun e => ⟨e.2, rfl⟩)]
+          rw [step_reader toNats (readN 32 r4) _ (read_exact_forget hs4 32) (fun x => x) _ (fun e => ⟨e.2, rfl⟩)]
           cases h5m : readN 32 r4 with
           | none => simp [rdBind, Netcode.PrivateConnectToken.read, Exec.run_err, Exec.run_val, mapRes, bind, Res.forget, h1m, h2m, h3m, h4m, h5m]
           | some x5 =>
             obtain ⟨k2, r5⟩ := x5
             have hs5 : r5 <:+ buf := readN_suffix' h5m hs4
             simp only [rdBind, id]
-            rw [step_reader toNats (readN 256 r5) _ (read_exact_forget hs5 256) id _ (fun e => ⟨e.2, rfl⟩)]
+            rw [step_reader toNats (readN 256 r5) _ (read_exact_forget hs5 256) (fun x => x) _ (fun e => ⟨e.2, rfl⟩)]
             cases h6m : readN 256 r5 with
             | none => simp [rdBind, Netcode.PrivateConnectToken.read, Exec.run_err, Exec.run_val, mapRes, bind, Res.forget, h1m, h2m, h3m, h4m, h5m, h6m]
             | some x6 =>
